@@ -1,5 +1,6 @@
 """Shared plumbing for the /verif checks: build, TLC, evidence, verdict lines."""
 import fcntl
+import fnmatch
 import json
 import os
 import re
@@ -226,7 +227,7 @@ def load_known_findings():
 def known_finding(pid, key):
     for f in load_known_findings():
         if f['kind'] == 'finding' and f['property'] == pid and f['key'] and \
-                (f['key'] == key or (f['key'].endswith('*') and key.startswith(f['key'][:-1]))):
+                (f['key'] == key or ('*' in f['key'] and fnmatch.fnmatchcase(key, f['key'].replace('[', '[[]')))):
             return f
     return None
 
